@@ -613,8 +613,8 @@ func (e *Engine) FieldWrites(field *types.Var, fns []*ssa.Function) []fieldWrite
 						out = append(out, fieldWrite{fn, in, "mapdelete", nil})
 					}
 				}
-				for _, a := range cc.Args {
-					if fieldOfAddr(a) == field {
+				for ai, a := range cc.Args {
+					if fieldOfAddr(a) == field && e.mayWriteThroughArg(x, ai) {
 						out = append(out, fieldWrite{fn, in, "addr-escape", a})
 					}
 				}
@@ -809,4 +809,70 @@ func blockFeasible(b *ssa.BasicBlock, a Assumption, depth int) bool {
 		b = b.Preds[0]
 	}
 	return true
+}
+
+// mayWriteThroughArg: may the callee(s) of the call store through the pointer
+// passed as argument #ai (directly or into a field reached from it)? Unknown
+// callees are assumed to write.
+func (e *Engine) mayWriteThroughArg(c ssa.CallInstruction, ai int) bool {
+	callees := e.Callees(c)
+	if len(callees) == 0 {
+		return true
+	}
+	idx := ai
+	if c.Common().IsInvoke() {
+		idx = ai + 1
+	}
+	for _, g := range callees {
+		if g.Blocks == nil {
+			return true
+		}
+		if idx >= len(g.Params) {
+			return true
+		}
+		writes := false
+		AllInstrs(g, func(in ssa.Instruction) {
+			st, ok := in.(*ssa.Store)
+			if !ok {
+				return
+			}
+			if paramIndex(st.Addr) == idx {
+				writes = true
+			}
+			if fa, ok := st.Addr.(*ssa.FieldAddr); ok && paramIndex(fa.X) == idx {
+				writes = true
+			}
+		})
+		// passing the pointer on to another function: be conservative one level down
+		AllInstrs(g, func(in ssa.Instruction) {
+			if ci, ok := in.(ssa.CallInstruction); ok {
+				for aj, a := range ci.Common().Args {
+					if paramIndex(a) == idx {
+						for _, h := range e.Callees(ci) {
+							if h.Blocks == nil || !isRepoFn(h) {
+								continue
+							}
+							hi := aj
+							if hi < len(h.Params) {
+								AllInstrs(h, func(x ssa.Instruction) {
+									if st, ok := x.(*ssa.Store); ok {
+										if paramIndex(st.Addr) == hi {
+											writes = true
+										}
+										if fa, ok := st.Addr.(*ssa.FieldAddr); ok && paramIndex(fa.X) == hi {
+											writes = true
+										}
+									}
+								})
+							}
+						}
+					}
+				}
+			}
+		})
+		if writes {
+			return true
+		}
+	}
+	return false
 }
